@@ -629,6 +629,39 @@ theorem getItems_never_misaligned (o : Obj) (items : List Item) (hwf : WF o = tr
         exact check_wf_not_runtime _ (getItems_result_wf o items sels _ _ hwf (by rw [← hens]; exact hn) hr)
 
 
+/-! ### recorded defects of the current tree (negation witnesses; replayed by the harness under specific keys) -/
+
+/-- A slice with a negative start (or a negative step) of a linear ensemble axis falls back to a plain copy of the axis
+metadata (`LinearAxis.__getitem__` raises TypeError for anything but forward slices): the coordinates of the result are
+not those of the selected items.  Here `obj[-2:]` on a 3-item axis with coordinates 0, 1, 2 selects the items 1, 2 but
+keeps offset 0. -/
+theorem negative_start_slice_linear_axis_copied_counterexample :
+    ¬ (∀ (o o' : Obj) (a b c : Option Int) (t : Int) (off samp off' samp' : Rat) (idx : List Nat),
+        o.ens = [.linear t off samp] → getItems o [.slice a b c] false = .ok o' → o'.ens = [.linear t off' samp'] →
+        sliceIndices a b c (o.shape.headD 0) = .ok idx →
+        ∀ k, k < idx.length → coord off' samp' k = coord off samp (idx.getD k 0)) := by
+  intro h
+  have := h ⟨[.linear 7 0 1], 0, [3], [0, 1, 2], []⟩ ⟨[.linear 7 0 1], 0, [2], [1, 2], []⟩ (some (-2)) none none 7 0 1 0 1 [1, 2]
+    rfl (by decide) rfl (by decide) 0 (by decide)
+  revert this
+  simp [coord]
+
+/-- NumPy's rule for an integer and an index list separated by a slice: the broadcast dimension of the advanced
+indices comes FIRST in the result (`a[0, :, [0, 0]]` has shape `(2, n1)`), while the metadata is selected item by item
+(`selShape`: `(n1, 2)`). -/
+def numpyIntSliceListShape (n1 listLen : Nat) : List Nat := [listLen, n1]
+
+/-- … so for `obj[0, :, [0, 0]]` the item-by-item metadata does not fit the array NumPy returns (the constructor then
+raises RuntimeError for ordinal axes; dask, which keeps the item order, returns different values than NumPy). -/
+theorem int_list_separated_misaligned_counterexample :
+    ¬ (∀ (ens : List Axis) (sels : List Sel) (n1 : Nat), axesFit ens [1, n1, 2] = true →
+        sels = [.drop 0, .keep (List.range n1) none, .keep [0, 0] none] →
+        axesFit (selectAxes sels ens []).1 (numpyIntSliceListShape n1 2) = true) := by
+  intro h
+  have := h [.other 1, .ordinal 2 [5, 6, 7], .ordinal 3 [8, 9]] _ 3 (by decide) rfl
+  revert this
+  decide
+
 /-! ### non-vacuity -/
 example : getItems ⟨[.ordinal 1 [10, 20, 30], .other 5], 1, [3, 2, 2], (List.range 12).map Int.ofNat, []⟩
       [.int (-1), .slice none none (some 2)] false
